@@ -170,6 +170,10 @@ structure Obj where
   ctype : CType         -- checksum_type column
   size  : Nat
   parts : List PartMeta -- part rows in sequence order
+  /-- The part rows carry the 1-based part numbers of a multipart upload (rows written by
+  `UploadPart`, object assembled in place by `CompleteMultipartUpload`); every other write path
+  numbers the rows from 0. -/
+  oneBased : Bool := false
   deriving DecidableEq, Repr, Inhabited
 
 structure Upload where
@@ -179,12 +183,16 @@ structure Upload where
   deriving Repr, Inhabited
 
 structure State where
+  /-- bucket versioning Enabled (configuration, never changes) -/
+  versioned : Bool := false
   objects : List (Nat × Obj) := []
   uploads : List (Nat × Upload) := []
   deriving Repr, Inhabited
 
 inductive Err where
   | badDigest | noSuchKey | noSuchUpload | invalidSequence | invalidRange
+  /-- an internal error surfaced to the caller (HTTP 500) -/
+  | internal
   deriving DecidableEq, Repr
 
 /-- Result of an operation: the values it returns (fields an API does not return stay `none`),
@@ -227,6 +235,12 @@ def chooseCopiedRow (covered : Option PartMeta) (fresh : PartMeta) : PartMeta :=
   match covered with
   | some p => if p.sha256.isSome then p else fresh
   | none => fresh
+
+/-- `AppendObject` on an unversioned, in-place completed multipart object with at least one part. -/
+def appendCollides (versioned : Bool) (old : Option Obj) : Bool :=
+  !versioned && (match old with
+    | some o => o.oneBased && !o.parts.isEmpty
+    | none => false)
 
 inductive Op where
   | put (key : Nat) (d : Digests) (input : Option Input)
@@ -280,11 +294,15 @@ def step (H : Hashes) (strict : Bool) (s : State) : Op → State × Out
       let cv := calculateMultipart H parts u.ctype
       if badDigest strict input cv then (s, .err .badDigest) else
       let size := (parts.map (·.size)).sum
-      let o : Obj := { vals := cv, ctype := u.ctype, size := size, parts := parts }
-      ({ objects := setKey u.key o s.objects, uploads := remove uid s.uploads }, .ok cv (some u.ctype) none)
+      let o : Obj := { vals := cv, ctype := u.ctype, size := size, parts := parts, oneBased := true }
+      ({ s with objects := setKey u.key o s.objects, uploads := remove uid s.uploads }, .ok cv (some u.ctype) none)
   | .append key d input =>
     if badDigest strict input d.values then (s, .err .badDigest) else
     let old := lookup key s.objects
+    -- As the code is: in an unversioned bucket the new row is saved with sequence number
+    -- `len(existingParts)`, which collides with the last of the 1-based rows of an object
+    -- assembled by CompleteMultipartUpload ("UNIQUE constraint failed"); the append fails.
+    if appendCollides s.versioned old then (s, .err .internal) else
     let oldParts := match old with | some o => o.parts | none => []
     let oldSize := match old with | some o => o.size | none => 0
     let all := oldParts ++ [d.partMeta]
@@ -297,7 +315,8 @@ def step (H : Hashes) (strict : Bool) (s : State) : Op → State × Out
   | .copy src dst =>
     match lookup src s.objects with
     | none => (s, .err .noSuchKey)
-    | some so => ({ s with objects := setKey dst so s.objects }, .ok { etag := so.vals.etag } none none)
+    | some so =>
+      ({ s with objects := setKey dst { so with oneBased := false } s.objects }, .ok { etag := so.vals.etag } none none)
   | .copyRange src dst d =>
     match lookup src s.objects with
     | none => (s, .err .noSuchKey)
